@@ -1,10 +1,62 @@
+use jbv::ctx::{install_panic_hook, Ctx, Tier};
+use std::path::PathBuf;
+
 fn main() {
-    let r = std::panic::catch_unwind(|| {
-        let e = jbonsai::Engine::load(&["/nonexistent"]);
-        println!("{:?}", e.is_err());
-        let v: Vec<u8> = vec![];
-        let g = jbonsai::speech::SpeechGenerator::new(1, jbonsai::vocoder::Vocoder::new(2,0,0,false,8000,0.0,0.0,1.0,1), vec![vec![0.0;2]], vec![], vec![]);
-        drop((v,g));
-    });
-    println!("{:?}", r.is_err());
+    let args: Vec<String> = std::env::args().collect();
+    if args.len() < 2 {
+        eprintln!("usage: jbv <Cxx|selftest> [--tier quick|thorough] [--seed N] [--shard i] [--nshards n] [--out DIR] [--repo DIR] [--scale F] [--sub NAME] [--replay SUB IDX] [-v]");
+        std::process::exit(2);
+    }
+    let prop = args[1].clone();
+    let mut tier = Tier::Quick;
+    let mut seed = 1u64;
+    let mut shard = 0usize;
+    let mut nshards = 1usize;
+    let mut out = PathBuf::from("/tmp/jbv-out");
+    let mut repo = PathBuf::from("/repo");
+    let mut scale = 1.0f64;
+    let mut sub: Option<String> = None;
+    let mut replay: Option<(String, u64)> = None;
+    let mut verbose = false;
+    let mut i = 2;
+    while i < args.len() {
+        let a = args[i].as_str();
+        let val = |i: usize| args.get(i + 1).cloned().unwrap_or_else(|| { eprintln!("missing value for {}", a); std::process::exit(2) });
+        match a {
+            "--tier" => { tier = if val(i) == "thorough" { Tier::Thorough } else { Tier::Quick }; i += 1 }
+            "--seed" => { seed = val(i).parse().expect("seed"); i += 1 }
+            "--shard" => { shard = val(i).parse().expect("shard"); i += 1 }
+            "--nshards" => { nshards = val(i).parse().expect("nshards"); i += 1 }
+            "--out" => { out = PathBuf::from(val(i)); i += 1 }
+            "--repo" => { repo = PathBuf::from(val(i)); i += 1 }
+            "--scale" => { scale = val(i).parse().expect("scale"); i += 1 }
+            "--sub" => { sub = Some(val(i)); i += 1 }
+            "--replay" => { let s = val(i); let k = args.get(i + 2).expect("replay idx").parse().expect("idx"); replay = Some((s, k)); i += 2 }
+            "-v" => verbose = true,
+            _ => { eprintln!("unknown argument {}", a); std::process::exit(2) }
+        }
+        i += 1;
+    }
+    install_panic_hook();
+    let mut ctx = Ctx::new(&prop, tier, seed, shard, nshards, scale, out.clone(), repo);
+    ctx.only_sub = sub;
+    ctx.replay = replay;
+    ctx.verbose = verbose;
+    let known = jbv::mon::dispatch(&mut ctx);
+    if !known {
+        eprintln!("unknown property {}", prop);
+        std::process::exit(2);
+    }
+    let nviol = ctx.rep.violations.len();
+    let ninc = ctx.rep.inconclusive.len();
+    let j = ctx.finish();
+    let path = out.join(format!("shard-{}.json", shard));
+    std::fs::write(&path, format!("{}\n", j)).expect("write shard result");
+    if verbose || ctx.replay.is_some() {
+        println!("{}", j);
+    }
+    // exit code: 0 ran to completion (violations are reported through the result file)
+    if ninc > 0 && nviol == 0 {
+        std::process::exit(0);
+    }
 }
